@@ -541,42 +541,88 @@ func builtinAppend(v ssa.Value) (a, b ssa.Value, ok bool) {
 // context of an intermediate generated method.
 func originPathOrderRule(p *Prog, r *Report, id string) {
 	r.Rule(id, "writer and reader of generatedMethod.OriginPath agree: generator.createSubMethod stores append([creator], creator.OriginPath...) (nearest first, declared root last) and generator.availableContext resolves the declared root as OriginPath[len-1] — or both use the opposite order; otherwise a sub-method below depth 1 is rebuilt with the contexts of a generated parent instead of the declared method's", 2)
-	isIndexID := func(v ssa.Value) bool { return loadsField(v, "IndexID") }
 	isOrigin := func(v ssa.Value) bool { return loadsField(v, "OriginPath") }
-	writer := ""
-	var wpos token.Pos
-	if fi, sf := needFunc(p, r, "generator.(*generator).createSubMethod"); fi != nil {
-		allInstrs(sf, true, func(in ssa.Instruction) {
-			st, ok := in.(*ssa.Store)
-			if !ok {
-				return
+	// shape of a path value; bind maps parameters of a helper to the caller's arguments
+	var shape func(v ssa.Value, bind map[*ssa.Parameter]ssa.Value, depth int) string
+	shape = func(v ssa.Value, bind map[*ssa.Parameter]ssa.Value, depth int) string {
+		if depth > 3 {
+			return "?"
+		}
+		isIndexID := func(x ssa.Value) bool {
+			if prm, ok := x.(*ssa.Parameter); ok && bind != nil {
+				if a, ok := bind[prm]; ok {
+					return loadsField(a, "IndexID")
+				}
 			}
-			fa, ok := st.Addr.(*ssa.FieldAddr)
-			if !ok || fieldName(fa) != "OriginPath" {
-				return
-			}
-			wpos = st.Pos()
-			v := st.Val
-			a, b, ok := builtinAppend(v)
-			if !ok {
-				writer = "?"
-				return
-			}
+			return loadsField(x, "IndexID")
+		}
+		if a, b, ok := builtinAppend(v); ok {
 			switch {
 			case sliceLitHolds(a, isIndexID) && isOrigin(b):
-				writer = "creator-first"
+				return "creator-first"
 			case sliceLitHolds(b, isIndexID):
 				if a2, b2, ok2 := builtinAppend(a); ok2 && isOrigin(b2) && !sliceLitHolds(a2, isIndexID) {
-					writer = "creator-last"
+					return "creator-last"
 				} else if isOrigin(a) {
-					writer = "creator-last(shared backing array)"
-				} else {
-					writer = "?"
+					return "creator-last(shared backing array)"
 				}
-			default:
-				writer = "?"
 			}
-		})
+			return "?"
+		}
+		if c, ok := v.(*ssa.Call); ok {
+			callee := c.Call.StaticCallee()
+			if callee == nil || !p.ssaIsOwn(callee) || callee.Signature.Results().Len() != 1 {
+				return "?"
+			}
+			nb := map[*ssa.Parameter]ssa.Value{}
+			for i, a := range c.Call.Args {
+				if i < len(callee.Params) {
+					if prm, ok := a.(*ssa.Parameter); ok && bind != nil && bind[prm] != nil {
+						a = bind[prm]
+					}
+					nb[callee.Params[i]] = a
+				}
+			}
+			out := ""
+			for _, blk := range callee.Blocks {
+				for _, in := range blk.Instrs {
+					if ret, ok := in.(*ssa.Return); ok {
+						s := shape(ret.Results[0], nb, depth+1)
+						if out != "" && out != s {
+							return "?"
+						}
+						out = s
+					}
+				}
+			}
+			if out == "" {
+				return "?"
+			}
+			return out
+		}
+		return "?"
+	}
+	writer := ""
+	var wpos token.Pos
+	if fi, _ := needFunc(p, r, "generator.(*generator).createSubMethod"); fi != nil {
+		for _, rf := range p.Region("generator.(*generator).createSubMethod") {
+			sf := p.SSAFunc(rf)
+			if sf == nil {
+				continue
+			}
+			allInstrs(sf, true, func(in ssa.Instruction) {
+				st, ok := in.(*ssa.Store)
+				if !ok {
+					return
+				}
+				fa, ok := st.Addr.(*ssa.FieldAddr)
+				if !ok || fieldName(fa) != "OriginPath" {
+					return
+				}
+				wpos = st.Pos()
+				writer = shape(st.Val, nil, 0)
+			})
+		}
 	}
 	reader := ""
 	var rpos token.Pos
@@ -896,6 +942,12 @@ func relativePackageRule(p *Prog, r *Report, id string) {
 			assume: func(v ssa.Value, _ func(ssa.Value) absVal) (absVal, bool) {
 				if isPartsLen(v) {
 					return aInt(2), true
+				}
+				// strings.Cut form: the package part is present
+				if ex, ok := v.(*ssa.Extract); ok && ex.Index == 2 {
+					if c, ok := ex.Tuple.(*ssa.Call); ok && ssaCalleeObj(c) != nil && isFunc(ssaCalleeObj(c), "strings", "", "Cut") {
+						return aBool(true), true
+					}
 				}
 				switch x := v.(type) {
 				case *ssa.BinOp:
